@@ -20,7 +20,7 @@ cp "$SRC/notes.md" "$OUT/notes.md" 2>/dev/null
 /verif/tools/scratch_check.sh "$NAME" init >/dev/null
 /verif/tools/scratch_check.sh "$NAME" revert
 R="$S/repo"
-export CARGO_TARGET_DIR="$S/rtarget"
+export CARGO_TARGET_DIR="/tmp/conf-rtarget" CARGO_INCREMENTAL=0 CARGO_PROFILE_DEV_DEBUG=0 CARGO_PROFILE_TEST_DEBUG=0
 DEMO_PATH="$(tr -d '\n\r ' < "$SRC/demo_path.txt")"
 CRATE="$(echo "$DEMO_PATH" | sed -E 's#^rs/([^/]+)/.*#\1#')"
 KIND="$(echo "$DEMO_PATH" | sed -E 's#^rs/[^/]+/([^/]+)/.*#\1#')"
@@ -36,6 +36,7 @@ SUITE=0
 for c in $TOUCHED; do
   ( cd "$R" && cargo test -j 8 --offline -p "$c" ) > "$OUT/suite_$c.log" 2>&1 || SUITE=1
 done
+unset CARGO_TARGET_DIR
 declare -A RES
 for id in "$P" "${EXTRA[@]}"; do
   /verif/tools/scratch_check.sh "$NAME" check "$id" --tier quick > "$OUT/check_$id.log" 2>&1; RES[$id]=$?
